@@ -225,7 +225,7 @@ KEYSETS = {"0..n-1": lambda n: list(range(n)), "descending": lambda n: [3 * (n -
            rejects=(), must_cover=["doubled fragment", "mixed"],
            assumes=["residue ids >= 1"],
            outside=["multi-residue blocks of more than two residues", "branched arrangements of fragments"],
-           bounds={"quick": dict(scen=["M", "A-M", "M-A", "M-M"], keys=["0..n-1", "descending", "strings"]),
+           bounds={"quick": dict(scen=["M", "A-M", "M-A", "M-M", "M-A-M"], keys=["0..n-1", "descending", "strings"]),
                    "thorough": dict(scen=sorted(SCEN), keys=sorted(KEYSETS))},
            budget={"quick": 200, "thorough": 900})
 def multi_residue(sx, B):
